@@ -657,24 +657,29 @@ def rule_visit_all(F, rep, rid, pred, floor, where_txt):
         raise AnalysisBroken('%s: only %d for loops in void functions of %s (%d confirmed)' % (rid, n, where_txt, floor))
 
 
+import re as _re_q
+_QNAME = _re_q.compile(r'^[A-Za-z_][\w.-]*:[A-Za-z_][\w.-]*(=|$)')    # a prefixed XML name (cellml:units, xlink:href): the prefix is the document's choice
+
+
 def markup_text_searches(f):
-    """Calls that search a std::string for a literal that starts with '<' (markup looked for by text instead of through the XML API)."""
+    """Calls that search a std::string for a literal that starts with '<' or is a namespace-prefixed name (markup looked for by text instead of
+    through the XML API: the element/attribute prefix is chosen by the document, only the namespace it is bound to is fixed)."""
     out = []
     for c in f.walk():
         if c.get('k') == 'Call' and c.get('mc') and c.get('fn') in ('find', 'rfind', 'find_first_of', 'compare', 'starts_with') and 'basic_string' in (c.get('cls') or c.get('callee') or ''):
             for a in c.get('c', [])[1:]:
                 for x in walk(a):
-                    if x.get('k') == 'Str' and str(x.get('v', '')).lstrip('"').startswith('<'):
+                    if x.get('k') == 'Str' and (str(x.get('v', '')).lstrip('"').startswith('<') or _QNAME.match(str(x.get('v', '')).lstrip('"'))):
                         out.append(c)
     return out
 
 
 def rule_markup_search(F, rep, rid, pred, where_txt):
     from facts import AnalysisBroken, fixture_funcs
-    rep.rule(rid, 'XML text kept in strings (the math of a component, reset values) is examined through the XML API in %s, never by searching the text for markup such as "<cn": a text search does not see namespace-prefixed elements (<mml:cn ...>), '
+    rep.rule(rid, 'XML text kept in strings (the math of a component, reset values) is examined through the XML API in %s, never by searching the text for markup such as "<cn" or "cellml:units": a text search does not see elements and attributes written with another namespace prefix (<mml:cn ...>, cml:units), '
                   'so what is decided from it (which units a component needs, hence which imports are fetched) is wrong for such documents' % where_txt)
     fx = fixture_funcs('markupsearch')
-    if len(markup_text_searches(fx['fixtureMarkupSearchBad'])) != 1 or markup_text_searches(fx['fixtureMarkupSearchGood']):
+    if len(markup_text_searches(fx['fixtureMarkupSearchBad'])) != 1 or len(markup_text_searches(fx['fixtureMarkupSearchBadQName'])) != 1 or markup_text_searches(fx['fixtureMarkupSearchGood']):
         raise AnalysisBroken('%s: the detector does not separate the two fixture functions (sa/fixtures/src/markupsearch.cpp)' % rid)
     n = 0
     for g in F.funcs.values():
@@ -1436,4 +1441,112 @@ def use_facts(F, f, node):
         fx = {(subst_names(t, sub), tr) for t, tr in (facts_x(F, owner, r) or set())}
         inner = fx if inner is None else (inner & fx)
     return base | (inner or set())
+
+
+def unread_to_exit(f, a, d, explained=None):
+    """Is there a CFG path from the assignment `a` of local d to the function exit on which d is neither read nor (before a read) overwritten,
+    and which passes no node for which explained(node) holds (e.g. an addIssue call: the input was rejected, what was read from it no
+    longer matters)?  Returns the list of blocks of one such path (for the report) or None."""
+    cfg = f.cfg()
+    pos = cfg.block_of(a) if cfg is not None else None
+    if pos is None:
+        return None
+
+    def scan(blk, start):
+        for e in blk['el'][start:]:
+            x = f.nodes.get(e)
+            if x is None or x is a:
+                continue
+            if explained is not None and explained(x):
+                return 'stop'
+            if x.get('k') in ('Bin', 'Call') and (x.get('op') == '=' or x.get('opc') == '=') and x.get('c') and x['c'][0].get('k') == 'Ref' and x['c'][0].get('d') == d:
+                if any(y.get('k') == 'Ref' and y.get('d') == d for y in walk(x['c'][1])):
+                    return 'stop'
+                return 'stop'     # overwritten: a matter for lost_values, not for this question
+            if x.get('k') == 'Ref' and x.get('d') == d:
+                p_ = f.parent(x)
+                if p_ is not None and ((p_.get('k') == 'Bin' and p_.get('op') == '=') or (p_.get('k') == 'Call' and p_.get('opc') == '=')) and p_['c'][0] is x:
+                    continue
+                return 'stop'
+        return None
+    if scan(cfg.blocks[pos[0]], pos[1] + 1):
+        return None
+    seen = {}
+    st = [(s_, (pos[0],)) for s_ in cfg.succ[pos[0]]]
+    while st:
+        b, pth = st.pop()
+        if b in seen:
+            continue
+        seen[b] = pth
+        if b == cfg.exit:
+            return list(pth) + [b]
+        if scan(cfg.blocks[b], 0) is None:
+            st.extend((s_, pth + (b,)) for s_ in cfg.succ[b])
+    return None
+
+
+def arm_disagreements(f):
+    """Pairs of calls (one in each arm of the same if/else) to the same method on the same PARAMETER of f (the entity being filled in) that
+    pass different sets of collected values (locals that are assigned inside a loop of f): [(if node, call a, call b, names only in a, names only in b)].
+    Also returns the number of pairs compared."""
+    loop_assigned = set()
+    for L in f.walk():
+        if L.get('k') in ('While', 'For', 'RangeFor', 'Do'):
+            for a in walk(L):
+                c = a.get('c', [])
+                if ((a.get('k') == 'Call' and a.get('opc') == '=') or (a.get('k') == 'Bin' and a.get('op') == '=')) and c and c[0].get('k') == 'Ref' and c[0].get('dk') == 'local':
+                    if any(y.get('k') == 'Ref' and y.get('d') == c[0]['d'] for y in walk(c[1])):
+                        continue     # a cursor (x = x->next()), not a collected value
+                    loop_assigned.add(c[0]['d'])
+    out, n = [], 0
+
+    def base(r):
+        while r is not None and r.get('k') == 'Call' and r.get('opc') in ('->', '*') and r.get('c'):
+            r = r['c'][0]
+        while r is not None and r.get('k') in ('Cast', 'Paren') and len(r.get('c', [])) == 1:
+            r = r['c'][0]
+        return r
+
+    def calls(arm):
+        # the statements of the arm itself (not what is nested in further tests inside it)
+        tops = arm.get('c', []) if arm.get('k') == 'Compound' else [arm]
+        tops = [t_ for t_ in tops if t_.get('k') not in ('If', 'While', 'For', 'RangeFor', 'Do', 'Switch')]
+        return [x for t_ in tops for x in walk(t_) if x.get('k') == 'Call' and x.get('mc') and not x.get('opc') and x.get('fn') and base(x['c'][0]) is not None and base(x['c'][0]).get('k') == 'Ref' and base(x['c'][0]).get('dk') == 'parm']
+    for i_ in f.walk():
+        if i_.get('k') != 'If' or f.enclosing_lambda(i_) is not None:
+            continue
+        th, el = role(i_, 'then'), role(i_, 'else')
+        if th is None or el is None or el.get('k') == 'If':
+            continue      # an else-if chain distinguishes cases (which attribute this is), it is not one decision with two arms
+        for a in calls(th):
+            for b in calls(el):
+                if a.get('fn') != b.get('fn') or base(a['c'][0]).get('d') != base(b['c'][0]).get('d'):
+                    continue
+                n += 1
+                la = {x['n'] for x in walk(a) if x.get('k') == 'Ref' and x.get('d') in loop_assigned}
+                lb = {x['n'] for x in walk(b) if x.get('k') == 'Ref' and x.get('d') in loop_assigned}
+                if la != lb:
+                    out.append((i_, a, b, sorted(la - lb), sorted(lb - la)))
+    return out, n
+
+
+def rule_arm_agreement(F, rep, rid, pred, where_txt):
+    from facts import AnalysisBroken, fixture_funcs
+    rep.rule(rid, 'in %s, where both arms of a test (document version, mode) end by calling the same method of the entity being loaded, the two calls hand over the same collected values (locals filled in the attribute loop): '
+                  'an arm that leaves one out (the id, say) loses that attribute for the documents that take this arm only' % where_txt)
+    fx = fixture_funcs('armagree')
+    bad, nb = arm_disagreements(fx['fixtureArmsBad'])
+    good, ng = arm_disagreements(fx['fixtureArmsGood'])
+    if len(bad) != 1 or bad[0][4] != ['id'] or good or ng < 1:
+        raise AnalysisBroken('%s: the detector does not separate the two fixture functions (sa/fixtures/src/armagree.cpp): %s / %s' % (rid, [(x[3], x[4]) for x in bad], good))
+    n = 0
+    for g in F.funcs.values():
+        if not pred(g):
+            continue
+        dis, k = arm_disagreements(g)
+        n += k
+        for i_, a, b, only_a, only_b in dis:
+            rep.fail(rid, '%s|%s' % (g.short.split('::')[-1], render(a)[:50]), g.where(a), '%s: under `%s` the entity receives `%s`, otherwise `%s`: %s passed in one arm only' % (
+                g.short, render(role(i_, 'cond'))[:40], render(a)[:70], render(b)[:70], ', '.join(only_a + only_b)))
+    rep.ok(rid, 'scan', None, '%d pairs of sibling calls compared in %s (fixture: 1 of 2 functions flagged, as expected)' % (n, where_txt))
 
